@@ -123,6 +123,64 @@ type FT struct {
 	inlining int
 	argPaths map[string]argRef
 	sigArgs  []ArgSpec
+	loopMemo map[token.Pos][]loopDef
+}
+
+// a loop already emitted: the continuation of a branching statement is
+// translated once per branch, so the same Go loop is met several times; it is
+// emitted once (binders are canonical, so the texts coincide)
+type loopDef struct {
+	name, fuel, text string
+}
+
+// canonLoopEnv rebinds the loop's read-only and state variables to canonical
+// binder names and starts a private name supply for the loop body.
+func (f *FT) canonLoopEnv(env *Env, vs ...[]*Var) (*Env, map[string]int) {
+	saved := f.names
+	f.names = map[string]int{}
+	for _, a := range f.sigArgs {
+		f.names["l_"+a.Coq] = 1
+	}
+	e := env.clone()
+	for _, group := range vs {
+		for i, v := range group {
+			isSig := false
+			for _, a := range f.sigArgs {
+				if a.Coq == v.Coq {
+					isSig = true
+				}
+			}
+			nv := *v
+			if !isSig {
+				nv.Coq = "v_" + v.Go
+			}
+			group[i] = &nv
+			e.vars[v.Go] = &nv
+		}
+	}
+	return e, saved
+}
+
+func (f *FT) memoLoop(pos token.Pos, mk func(name string) string, fueled bool) (string, string) {
+	if f.loopMemo == nil {
+		f.loopMemo = map[token.Pos][]loopDef{}
+	}
+	for _, d := range f.loopMemo[pos] {
+		if mk(d.name) == d.text {
+			return d.name, d.fuel
+		}
+	}
+	f.nloops++
+	name := fmt.Sprintf("gen_%s_loop%d", f.fs.Name, f.nloops)
+	fuel := ""
+	if fueled {
+		fuel = fmt.Sprintf("fuel%d", f.nloops)
+		f.fuels = append(f.fuels, fuel)
+	}
+	text := mk(name)
+	f.loopMemo[pos] = append(f.loopMemo[pos], loopDef{name, fuel, text})
+	f.aux = append(f.aux, text)
+	return name, fuel
 }
 
 func translateFunc(spec *Spec, ps *PropSpec, pkg *Pkg, fs *FnSpec, fd *ast.FuncDecl, done map[string]bool) (string, error) {
@@ -1162,26 +1220,36 @@ func (f *FT) forStmt(s *ast.ForStmt, env *Env, ctx *Ctx, k func(*Env) (string, e
 	if err != nil {
 		return "", err
 	}
-	f.nloops++
-	name := fmt.Sprintf("gen_%s_loop%d", f.fs.Name, f.nloops)
-	fuel := fmt.Sprintf("fuel%d", f.nloops)
-	f.fuels = append(f.fuels, fuel)
 	state, ro := f.loopVars(env, []ast.Node{s.Cond, s.Body}, nil)
+	var outerRo, outerSt []string
+	for _, v := range ro {
+		outerRo = append(outerRo, v.Coq)
+	}
+	for _, v := range state {
+		outerSt = append(outerSt, v.Coq)
+	}
+	outerState := append([]*Var(nil), state...)
+	lenv, savedNames := f.canonLoopEnv(env, ro, state)
+	restore := func() { f.names = savedNames }
 	sigB, sigN := f.sigBinders(state)
 	roB, roN, _, err := f.binders(ro)
 	if err != nil {
+		restore()
 		return "", err
 	}
 	stB, stN, stK, err := f.binders(state)
 	if err != nil {
+		restore()
 		return "", err
 	}
 	rt, err := f.tupleType(f.retKinds)
 	if err != nil {
+		restore()
 		return "", err
 	}
 	st, _ := f.tupleType(stK)
 	d := env.depth
+	const self = "@SELF@"
 	lctx := &Ctx{panicT: "GLPanic", fuelT: "GLFuel"}
 	lctx.onReturn = func(vals []Val) (string, error) {
 		var ts []string
@@ -1192,7 +1260,7 @@ func (f *FT) forStmt(s *ast.ForStmt, env *Env, ctx *Ctx, k func(*Env) (string, e
 	}
 	lctx.onContinue = func(e *Env) (string, error) {
 		e = e.popTo(d)
-		return joinNonEmpty(name, "fuel'", sigN, strings.Join(roN, " "), strings.Join(stateOf(e, state), " ")), nil
+		return joinNonEmpty(self, "fuel'", sigN, strings.Join(roN, " "), strings.Join(stateOf(e, state), " ")), nil
 	}
 	lctx.onBreak = func(e *Env) (string, error) {
 		return "GLExit " + paren(tupleTerm(stateOf(e.popTo(d), state))), nil
@@ -1200,25 +1268,31 @@ func (f *FT) forStmt(s *ast.ForStmt, env *Env, ctx *Ctx, k func(*Env) (string, e
 	lctx.onFall = lctx.onContinue
 	cond := "true"
 	if s.Cond != nil {
-		c, err := f.expr(s.Cond, env, "bool")
+		c, err := f.expr(s.Cond, lenv, "bool")
 		if err != nil {
+			restore()
 			return "", err
 		}
 		if len(f.guards) > 0 {
+			restore()
 			return "", f.errAt(s.Cond, "possibly panicking loop condition")
 		}
 		cond = c.T
 	}
 	f.inLoop = true
-	body, err := f.block(s.Body, env, lctx, lctx.onContinue)
+	body, err := f.block(s.Body, lenv, lctx, lctx.onContinue)
 	f.inLoop = false
+	restore()
 	if err != nil {
 		return "", err
 	}
-	def := fmt.Sprintf("Fixpoint %s {struct fuel} : gen_lres %s %s :=\n  if %s then\n    match fuel with\n    | O => GLFuel\n    | S fuel' =>\n%s\n    end\n  else GLExit %s.",
-		joinNonEmpty(name, "(fuel : nat)", sigB, roB, stB), paren(rt), paren(st), cond, indent(body, 3), paren(tupleTerm(stN)))
-	f.aux = append(f.aux, def)
-	return f.loopUse(joinNonEmpty(name, fuel, sigN, strings.Join(roN, " "), strings.Join(stN, " ")), true, fuelT, panicT, env, state, ctx, k)
+	mk := func(name string) string {
+		def := fmt.Sprintf("Fixpoint %s {struct fuel} : gen_lres %s %s :=\n  if %s then\n    match fuel with\n    | O => GLFuel\n    | S fuel' =>\n%s\n    end\n  else GLExit %s.",
+			joinNonEmpty(name, "(fuel : nat)", sigB, roB, stB), paren(rt), paren(st), cond, indent(body, 3), paren(tupleTerm(stN)))
+		return strings.ReplaceAll(def, self, name)
+	}
+	name, fuel := f.memoLoop(s.Pos(), mk, true)
+	return f.loopUse(joinNonEmpty(name, fuel, sigN, strings.Join(outerRo, " "), strings.Join(outerSt, " ")), true, fuelT, panicT, env, outerState, ctx, k)
 }
 
 func (f *FT) loopUse(call string, fueled bool, fuelT, panicT string, env *Env, state []*Var, ctx *Ctx, k func(*Env) (string, error)) (string, error) {
@@ -1278,32 +1352,42 @@ func (f *FT) rangeStmt(s *ast.RangeStmt, env *Env, ctx *Ctx, k func(*Env) (strin
 	if len(f.guards) > 0 {
 		return "", f.errAt(s.X, "possibly panicking range expression")
 	}
-	f.nloops++
-	name := fmt.Sprintf("gen_%s_loop%d", f.fs.Name, f.nloops)
-	exclude := map[string]bool{}
-	state, ro := f.loopVars(env, []ast.Node{s.Body}, exclude)
+	state, ro := f.loopVars(env, []ast.Node{s.Body}, nil)
 	as := map[string]bool{}
 	assigned(s.Body, as)
 	if id, ok := s.X.(*ast.Ident); ok && as[id.Name] {
 		return "", f.errAt(s, "the slice ranged over is assigned in the loop body")
 	}
+	var outerRo, outerSt []string
+	for _, v := range ro {
+		outerRo = append(outerRo, v.Coq)
+	}
+	for _, v := range state {
+		outerSt = append(outerSt, v.Coq)
+	}
+	outerState := append([]*Var(nil), state...)
+	lenv, savedNames := f.canonLoopEnv(env, ro, state)
+	restore := func() { f.names = savedNames }
 	sigB, sigN := f.sigBinders(state)
 	roB, roN, _, err := f.binders(ro)
 	if err != nil {
+		restore()
 		return "", err
 	}
 	stB, stN, stK, err := f.binders(state)
 	if err != nil {
+		restore()
 		return "", err
 	}
 	rt, err := f.tupleType(f.retKinds)
 	if err != nil {
+		restore()
 		return "", err
 	}
 	st, _ := f.tupleType(stK)
 	idx, lst, elem, lst2 := f.fresh("idx"), f.fresh("lst"), f.fresh("elem"), f.fresh("lst")
 	d := env.depth
-	benv := env.push()
+	benv := lenv.push()
 	if id, ok := s.Key.(*ast.Ident); ok && id.Name != "_" {
 		f.order++
 		benv = benv.declare(&Var{Go: id.Name, Coq: idx, K: "i64", Order: f.order})
@@ -1312,6 +1396,7 @@ func (f *FT) rangeStmt(s *ast.RangeStmt, env *Env, ctx *Ctx, k func(*Env) (strin
 		f.order++
 		benv = benv.declare(&Var{Go: id.Name, Coq: elem, K: "hdr", Order: f.order})
 	}
+	const self = "@SELF@"
 	lctx := &Ctx{}
 	lctx.onReturn = func(vals []Val) (string, error) {
 		var ts []string
@@ -1322,7 +1407,7 @@ func (f *FT) rangeStmt(s *ast.RangeStmt, env *Env, ctx *Ctx, k func(*Env) (strin
 	}
 	lctx.onContinue = func(e *Env) (string, error) {
 		e = e.popTo(d)
-		return joinNonEmpty(name, sigN, strings.Join(roN, " "), "("+idx+" + 1)%Z", lst2, strings.Join(stateOf(e, state), " ")), nil
+		return joinNonEmpty(self, sigN, strings.Join(roN, " "), "("+idx+" + 1)%Z", lst2, strings.Join(stateOf(e, state), " ")), nil
 	}
 	lctx.onBreak = func(e *Env) (string, error) {
 		return "GRExit " + paren(tupleTerm(stateOf(e.popTo(d), state))), nil
@@ -1331,14 +1416,18 @@ func (f *FT) rangeStmt(s *ast.RangeStmt, env *Env, ctx *Ctx, k func(*Env) (strin
 	f.inLoop = true
 	body, err := f.block(s.Body, benv, lctx, lctx.onContinue)
 	f.inLoop = false
+	restore()
 	if err != nil {
 		return "", err
 	}
-	def := fmt.Sprintf("Fixpoint %s {struct %s} : gen_rres %s %s :=\n  match %s with\n  | [] => GRExit %s\n  | %s :: %s =>\n%s\n  end.",
-		joinNonEmpty(name, sigB, roB, "("+idx+" : Z)", "("+lst+" : list hdr)", stB), lst, paren(rt), paren(st),
-		lst, paren(tupleTerm(stN)), elem, lst2, indent(body, 2))
-	f.aux = append(f.aux, def)
-	return f.loopUse(joinNonEmpty(name, sigN, strings.Join(roN, " "), "0%Z", paren(xs.T), strings.Join(stN, " ")), false, "", "", env, state, ctx, k)
+	mk := func(name string) string {
+		def := fmt.Sprintf("Fixpoint %s {struct %s} : gen_rres %s %s :=\n  match %s with\n  | [] => GRExit %s\n  | %s :: %s =>\n%s\n  end.",
+			joinNonEmpty(name, sigB, roB, "("+idx+" : Z)", "("+lst+" : list hdr)", stB), lst, paren(rt), paren(st),
+			lst, paren(tupleTerm(stN)), elem, lst2, indent(body, 2))
+		return strings.ReplaceAll(def, self, name)
+	}
+	name, _ := f.memoLoop(s.Pos(), mk, false)
+	return f.loopUse(joinNonEmpty(name, sigN, strings.Join(outerRo, " "), "0%Z", paren(xs.T), strings.Join(outerSt, " ")), false, "", "", env, outerState, ctx, k)
 }
 
 // subst fills a symbol-table template.
